@@ -27,11 +27,12 @@ func traceInstr(g *G, fr *Frame, ins ssa.Instruction) {
 type goFunc func(g *G) Value
 
 type Program struct {
-	prog     *ssa.Program
-	pkgs     []*ssa.Package
-	byPath   map[string]*ssa.Package
-	initRefs map[*ssa.Package]map[*ssa.Global]bool
-	mu       sync.Mutex
+	prog        *ssa.Program
+	pkgs        []*ssa.Package
+	byPath      map[string]*ssa.Package
+	initRefs    map[*ssa.Package]map[*ssa.Global]bool
+	reachesLock map[*ssa.Function]bool
+	mu          sync.Mutex
 }
 
 var lenientInit = map[string]bool{
